@@ -1,6 +1,7 @@
 import ZvbiModel.Cc.Lemmas4
 import ZvbiModel.Cc.Lemmas6
 import ZvbiModel.Cc.Lemmas7
+import ZvbiModel.Cc.Refine14
 /-!
 # C08 - Closed Caption display memory follows EIA-608 for every command sequence
 
@@ -10,53 +11,54 @@ Property theorems only; helper lemmas are in `Cc/Lemmas*.lean`.  Model: `Cc/Mode
 namespace Zvbi.Props.C08
 open Zvbi.Cc Zvbi.Gen.Cc
 
-/-- **cursor_inv.** For every history of byte pairs (both fields, any bytes, any parity) and page
-fetches, every one of the nine channels satisfies `1 <= col1 <= col <= 33`, `row <= 14`,
+/-- **cursor_inv.** For every history of byte pairs (both fields, any bytes, any parity), page fetches
+and channel switches, every one of the nine channels satisfies `1 <= col1 <= col <= 33`, `row <= 14`,
 `roll >= 1`, `row1 + roll <= 15`, `line` = cell `row * 34` of the hidden page, both `text[]`
-arrays keep their extent, and no access recorded an out-of-bounds index or a negative size. -/
-theorem cursor_inv (ops : List Op) (h : Op.chsw ∉ ops) : Inv (run ops) :=
-  foldl_inv ops (fun _ ho => Or.inl (fun e => h (e ▸ ho))) _ init_inv
+arrays keep their extent, and no access recorded an out-of-bounds index or a negative size.
+(Uses two facts `translate/gen_cc.py` reads from the source on every run: `ch->hidden = 0` precedes
+`set_cursor()` in `vbi_caption_channel_switched` - commit 19e972f - and the PAC window clamp
+`if (row1 < 0) row1 = 0;` is present; if either disappears this proof no longer builds.) -/
+theorem cursor_inv (ops : List Op) : Inv (run ops) :=
+  foldl_inv ops (fun _ _ => Or.inr (by decide)) _ init_inv
 
-example : Inv (run [.pair false 0x94 0x2C, .fetch 1]) := cursor_inv _ (by simp)
+example : Inv (run [.pair false 0x94 0x2C, .chsw, .fetch 1]) := cursor_inv _
 
-/-- **no_oob** (the C01 obligation of caption.c): no history of byte pairs and fetches makes
-`put_char`, `word_break`, `update`, tabs, BS, DER, CR, `erase_memory` or the channel table index
-leave its array. -/
-theorem no_oob (ops : List Op) (h : Op.chsw ∉ ops) : (run ops).firstErr = none :=
-  firstErr_none (cursor_inv ops h)
+/-- **no_oob** (the C01 obligation of caption.c): no history of byte pairs, fetches and channel switches
+makes `put_char`, `word_break`, `update`, tabs, BS, DER, CR, `erase_memory`, the PAC window move or the
+channel table index leave its array. -/
+theorem no_oob (ops : List Op) : (run ops).firstErr = none :=
+  firstErr_none (cursor_inv ops)
 
-example : (run [.pair true 0x15 0x2D]).firstErr = none := no_oob _ (by simp)
+example : (run [.pair true 0x15 0x2D, .chsw]).firstErr = none := no_oob _
 
-/-- **cursor_inv with channel switches**, for a tree in which `vbi_caption_channel_switched` clears
-`ch->hidden` before it calls `set_cursor` (the repair proposed in fixes/cc-chsw-line-pointer.diff):
-then histories may contain channel switches anywhere. -/
-theorem cursor_inv_chsw (hfix : chswHiddenResetFirst = true) (ops : List Op) : Inv (run ops) :=
-  foldl_inv ops (fun _ _ => Or.inr hfix) _ init_inv
+/-- **cursor_inv for either statement order** of `vbi_caption_channel_switched`: with `set_cursor()` first
+(the order before commit 19e972f, `hiddenFirst = false`) the invariant still holds for every history
+WITHOUT channel switches; with `hidden = 0` first it holds for all histories. -/
+theorem cursor_inv_either_order (hiddenFirst : Bool) (ops : List Op) (h : Op.chsw ∉ ops ∨ hiddenFirst = true) :
+    Inv (runWith hiddenFirst ops) :=
+  foldlWith_inv hiddenFirst ops (fun _ ho => h.elim (fun hn => Or.inl (fun e => hn (e ▸ ho))) Or.inr) _ init_inv
 
-
-/-- the witness of finding F17: `RCL RCL EOC EOC <channel switch> RDC` on CC1 -/
+/-- the witness of finding F43 (was F17): `RCL RCL EOC EOC <channel switch> RDC` on CC1 -/
 def f17Witness : List Op :=
   [.pair false 0x94 0x20, .pair false 0x94 0x20, .pair false 0x94 0x2F, .pair false 0x94 0x2F, .chsw,
    .pair false 0x94 0x29]
 
 set_option maxRecDepth 100000 in
-/-- **chsw_counterexample** (finding F17).  On a tree where `vbi_caption_channel_switched` calls
-`set_cursor` before it clears `ch->hidden`, after `RCL RCL EOC EOC <channel switch>` CC1's `line` points
-into the displayed page, and the next command (`RDC`) makes `update()` compute a destination outside
-`pg[]`: the model records that error, so `cursor_inv` cannot admit channel switches on such a tree.
-(When the source is repaired the generated flag becomes `true` and this theorem holds vacuously,
-`cursor_inv_chsw` then applies.) -/
-theorem chsw_counterexample : chswHiddenResetFirst = false →
-    (run f17Witness).firstErr = some "update: line is not in pg[hidden]" := by
+/-- **chsw_counterexample** (finding F43, repaired by commit 19e972f).  With the unrepaired statement order
+(`set_cursor` before `ch->hidden = 0`), after `RCL RCL EOC EOC <channel switch>` CC1's `line` points into
+the displayed page, and the next command (`RDC`) makes `update()` compute a destination outside `pg[]`:
+the model records that error.  Stated for the model with the order given explicitly, so it keeps its
+content now that the source is repaired. -/
+theorem chsw_counterexample :
+    (runWith false f17Witness).firstErr = some "update: line is not in pg[hidden]" := by
   decide
 
-/-- consequence: the invariant fails on that history -/
-theorem chsw_breaks_inv (hflag : chswHiddenResetFirst = false) : ¬ Inv (run f17Witness) := by
+/-- consequence: the invariant fails on that history with the unrepaired order -/
+theorem chsw_breaks_inv : ¬ Inv (runWith false f17Witness) := by
   intro hI
   have h1 := firstErr_none hI
-  rw [chsw_counterexample hflag] at h1
+  rw [chsw_counterexample] at h1
   cases h1
-
 
 /-! ## channels and fields -/
 
@@ -245,13 +247,15 @@ the Mid-Row Code of another color ... the italics Mid-Row Code must follow the c
 libzvbi's mid-row italics sets the foreground to white: after the witness the `B` in row 15 column 3 is
 white italic in libzvbi and green italic in the reference model.  Replayed on the C code by
 corpus/C08/f20-midrow-italics.ops. -/
-theorem refines_Eia608_counterexample : ¬ refines_Eia608_full := by
+theorem refines_Eia608_counterexample (hflag : midrowItalicsKeepsColour = false) : ¬ refines_Eia608_full := by
   intro h
   have h1 := h f20Witness (by decide) 0 (by decide)
   have h2 : (modelVisible (runPairs f20Witness) 0).map (fun l => l[14 * 34 + 3]?) =
       some (((specPairs f20Witness).visible 0)[14 * 34 + 3]?) := by rw [h1]; rfl
-  revert h2
-  decide
+  have h3 : midrowItalicsKeepsColour = false →
+      (modelVisible (runPairs f20Witness) 0).map (fun l => l[14 * 34 + 3]?) ≠
+      some (((specPairs f20Witness).visible 0)[14 * 34 + 3]?) := by decide
+  exact h3 hflag h2
 
 
 /-- **refines_Eia608_partial.**  Character runs refine the reference model cell for cell: let a channel
@@ -302,11 +306,11 @@ example : ∃ (ch : Channel) (v : Eia608.Service), ChInv ch ∧ ch.col + [0x41, 
 
 /-! ## events -/
 
-/-- **event_on_change_full** (OPEN, false as it stands - see `event_on_change_counterexample`): after
-any history, every byte pair that changes the displayed memory of a channel raises a caption event
+/-- **event_on_change_full** (false on a tree without the repairs of finding F45 - `event_on_change_counterexample` -,
+true with them - `event_on_change_repaired`): after any history (channel switches included), every byte pair that changes the displayed memory of a channel raises a caption event
 for that channel. -/
 def event_on_change_full : Prop :=
-  ∀ (ops : List Op), Op.chsw ∉ ops → ∀ (f : Bool) (b0 b1 : Nat), EvSt (run ops) (decodePair (run ops) f b0 b1)
+  ∀ (ops : List Op) (f : Bool) (b0 b1 : Nat), EvSt (run ops) (decodePair (run ops) f b0 b1)
 
 /-- **event_on_change_partial.**  In any state reachable without a channel switch (any state with the
 invariant), every byte pair - any bytes, either field - other than (a) a roll-up command RU2/RU3/RU4
@@ -323,26 +327,38 @@ theorem event_on_change_partial (s : St) (hs : Inv s) (f : Bool) (b0 b1 : Nat)
 example : ¬ silentCmd init (0x94 &&& 0x7F) (0x2C &&& 0x7F) false := by
   unfold silentCmd; decide
 
-/-- witness of finding F19: a pop-on caption `AB` is on screen, then RU2 arrives -/
+/-- **event_on_change_repaired.**  On a tree with the two repairs proposed for finding F45 (RUx raises the
+event when it erases: `ruEraseRaisesEvent`; CR does not `update()` in pop-on mode: `crPopOnNoUpdate` - both facts
+are read from the source by translate/gen_cc.py) the full statement holds: every byte pair, in every
+reachable state, accounts for every change of a displayed memory by an event. -/
+theorem event_on_change_repaired (h1 : ruEraseRaisesEvent = true) (h2 : crPopOnNoUpdate = true) :
+    event_on_change_full := by
+  intro ops f b0 b1
+  exact decodePair_evst (cursor_inv ops) f b0 b1 (not_silent_of_repairs h1 h2 _ _ _ _)
+
+/-- witness of finding F45a (was F19): a pop-on caption `AB` is on screen, then RU2 arrives -/
 def f19Witness : List Op :=
   [.pair false 0x94 0x20, .pair false 0x94 0x20, .pair false 0xC1 0xC2, .pair false 0x94 0x2F, .pair false 0x94 0x2F]
 
 set_option maxRecDepth 1000000 in
-/-- **event_on_change_counterexample** (finding F19a).  After `RCL "AB" EOC` the roll-up command RU2
-erases CC1's displayed memory and raises no event (`word_break` returns early in pop-on mode,
-`erase_memory` never sends one).  Replayed on the C code by corpus/C08/f19-no-event-ru.ops. -/
-theorem event_on_change_counterexample : ¬ event_on_change_full := by
+/-- **event_on_change_counterexample** (finding F45a).  Without the repair (`ruEraseRaisesEvent = false`):
+after `RCL "AB" EOC` the roll-up command RU2 erases CC1's displayed memory and raises no event
+(`word_break` returns early in pop-on mode, `erase_memory` never sends one).  Replayed on the C code by
+corpus/C08/f19-no-event-ru.ops. -/
+theorem event_on_change_counterexample (hflag : ruEraseRaisesEvent = false) : ¬ event_on_change_full := by
   intro h
-  have hw : Op.chsw ∉ f19Witness := by simp [f19Witness]
-  have h1 := (h f19Witness hw false 0x94 0x25).2 0
-  have hI := cursor_inv f19Witness hw
+  have h1 := (h f19Witness false 0x94 0x25).2 0
+  have hI := cursor_inv f19Witness
   have hI' := decodePair_inv hI false 0x94 0x25
   have l1 : 0 < (run f19Witness).chans.length := by rw [hI.len]; decide
   have l2 : 0 < (decodePair (run f19Witness) false 0x94 0x25).chans.length := by rw [hI'.len]; decide
-  have e3 : (decodePair (run f19Witness) false 0x94 0x25).chans[0]?.map (·.nev) =
+  have e3 : ruEraseRaisesEvent = false → (decodePair (run f19Witness) false 0x94 0x25).chans[0]?.map (·.nev) =
       (run f19Witness).chans[0]?.map (·.nev) := by decide
-  have e4 : (decodePair (run f19Witness) false 0x94 0x25).chans[0]?.map (fun c => c.displayed[477]?) ≠
+  have e4 : ruEraseRaisesEvent = false →
+      (decodePair (run f19Witness) false 0x94 0x25).chans[0]?.map (fun c => c.displayed[477]?) ≠
       (run f19Witness).chans[0]?.map (fun c => c.displayed[477]?) := by decide
+  have e3 := e3 hflag
+  have e4 := e4 hflag
   have g1 := List.getElem?_eq_getElem l1
   have g2 := List.getElem?_eq_getElem l2
   rw [g1, g2] at e3 e4
@@ -350,5 +366,102 @@ theorem event_on_change_counterexample : ¬ event_on_change_full := by
   rcases h1 _ _ g1 g2 with hl | ⟨_, hd⟩
   · omega
   · exact e4 (by simp only [Option.map_some, hd])
+
+
+/-! ## refinement of whole caption scripts (`refines_Eia608_scripts`)
+
+Scripts are byte pairs on field 1 addressed to CC1, every byte with odd parity, control pairs sent twice
+(`ctl`), text pairs once (`txt`, second byte a character or the NUL filler).  Well-formedness is judged on
+the state of the reference decoder (`streamOkB`, `rbopsOk`, `bopsOkPaint`):
+
+* pop-on caption  `RCL ENM (PAC | text pair)* EOC`: each PAC has a defined row code and addresses a row that is
+  still empty in the reference NON-displayed memory; text only after a PAC, characters 0x20..0x7F, fitting
+  into the row (cursor + length <= column 33);
+* roll-up script  `RUn [PAC] (text pair | CR)*`, n = 2, 3, 4, entered from a pop-on/fresh state;
+* paint-on script `RDC (PAC | text pair)*`, entered from a state whose cursor row is empty on display; each PAC
+  addresses a row that is empty in the reference DISPLAYED memory.
+
+Excluded (libzvbi deviates, or the standard leaves it open - NOTES/C08.md): ENM omitted, mid-row / background /
+FON / special-character / extended-character codes, tab offsets, BS, DER, EDM inside a script, a PAC to a row
+that already holds text, PAC inside a roll-up line or after the first line, RUn with a new depth while in
+roll-up mode, text that runs past column 32, NUL pairs between the two copies of a control pair, field 2
+and the channel bit (CC2-CC4, covered at channel level: `popon_stream_refines`, `rollup_refines`,
+`painton_refines` hold for every caption channel; `channels_independent` gives the separation). -/
+
+/-- **refines_Eia608_scripts, pop-on.**  For every well-formed stream of pop-on captions fed to the fresh decoder,
+after every End Of Caption the page `vbi_fetch_cc_page` returns for CC1 equals the page the reference model
+makes visible - all 15 x 34 cells: characters, colours, underline, italics, flash, opacity and the solid spaces.
+Induction over the captions of the stream, the rows of a caption and the characters of a row. -/
+theorem refines_Eia608_scripts_popon (caps : List (List BOp)) (hok : streamOkB Eia608.init caps) :
+    ∀ n, n ≤ caps.length →
+      modelVisible (runPairs ((caps.take n).flatMap encCaption)) 0 =
+        some ((specPairs ((caps.take n).flatMap encCaption)).visible 0) := by
+  intro n hn
+  rw [runPairs_eq_feed, specPairs_eq_sfeed]
+  exact visible_of_simIdle (stream_bytes caps init_simIdle hok n hn)
+
+set_option maxRecDepth 100000 in
+/-- a well-formed one-caption stream: `RCL ENM PAC(row 15) "HI" EOC` -/
+example : streamOkB Eia608.init [[.pac 4 0x70, .pair 0x48 0x49]] := by
+  refine ⟨⟨⟨trivial, ((Eia608.Service.init false).exec .rcl).exec .enm, rfl, by decide, by decide, by decide, 14, 0, none, false, rfl,
+    fun _ => rfl⟩, ⟨⟨by decide, by decide, Or.inr (by decide)⟩, _, rfl, rfl, by decide, by decide⟩, trivial⟩, trivial⟩
+
+/-- **refines_Eia608_scripts, roll-up.**  After any well-formed stream of pop-on captions (possibly empty), a
+well-formed roll-up script `RUn [PAC] (text pair | CR)*`: right after `RUn [PAC]`, after every text pair that ends
+with a space and after every carriage return the fetched page equals the reference page. -/
+theorem refines_Eia608_scripts_rollup (caps : List (List BOp)) (hok : streamOkB Eia608.init caps)
+    (n : Nat) (h2 : 2 ≤ n) (h4 : n ≤ 4) (pac : Option (Nat × Nat))
+    (hp : ∀ lo c2, pac = some (lo, c2) → lo < 8 ∧ c2 < 128 ∧ 0x40 ≤ c2 ∧ (pacArgs lo c2).isSome)
+    (ops : List RBOp)
+    (hops : rbopsOk (sfeed Eia608.init (caps.flatMap encCaption ++ encRollStart n pac)) ops) :
+    (modelVisible (runPairs (caps.flatMap encCaption ++ encRollStart n pac)) 0 =
+        some ((specPairs (caps.flatMap encCaption ++ encRollStart n pac)).visible 0)) ∧
+    ∀ k, (hk0 : 0 < k) → (hk : k ≤ ops.length) → (ops[k - 1]'(by omega)).toROp.visible = true →
+      modelVisible (runPairs (caps.flatMap encCaption ++ encRollStart n pac ++ (ops.take k).flatMap RBOp.enc)) 0 =
+        some ((specPairs (caps.flatMap encCaption ++ encRollStart n pac ++ (ops.take k).flatMap RBOp.enc)).visible 0) := by
+  have S0 := stream_bytes caps init_simIdle hok caps.length (Nat.le_refl _)
+  rw [List.take_length] at S0
+  have S1 := roll_start_bytes S0 h2 h4 pac hp
+  rw [← feed_append, ← sfeed_append] at S1
+  refine ⟨by rw [runPairs_eq_feed, specPairs_eq_sfeed]; exact visible_of_simRoll S1, ?_⟩
+  intro k hk0 hk hvis
+  rw [runPairs_eq_feed, specPairs_eq_sfeed, feed_append, sfeed_append]
+  exact rbops_refine n ops S1 hops k hk0 hk hvis
+
+set_option maxRecDepth 100000 in
+/-- a well-formed roll-up script on the fresh decoder: `RU2 "A " CR` -/
+example : rbopsOk (sfeed Eia608.init (([] : List (List BOp)).flatMap encCaption ++ encRollStart 2 none))
+    [.pair 0x41 0x20, .cr] :=
+  ⟨⟨by decide, by decide, Or.inr (by decide), _, rfl, by decide⟩, trivial, trivial⟩
+
+/-- **refines_Eia608_scripts, paint-on.**  On the fresh decoder, a well-formed paint-on script
+`RDC (PAC | text pair)*`: right after RDC, after every PAC and after every text pair that ends with a space the
+fetched page equals the reference page.  (`paint_start_bytes` / `bops_paint_refine` give the same from any idle
+state whose cursor row is empty on display; after a pop-on caption that used row 15 libzvbi's first PAC would
+wipe that row - deviation D-paint in NOTES/C08.md.) -/
+theorem refines_Eia608_scripts_painton (ops : List BOp)
+    (hops : bopsOkPaint (sfeed Eia608.init (ctl 0x14 0x29)) false ops) :
+    (modelVisible (runPairs (ctl 0x14 0x29)) 0 = some ((specPairs (ctl 0x14 0x29)).visible 0)) ∧
+    ∀ k, (hk0 : 0 < k) → (hk : k ≤ ops.length) → (ops[k - 1]'(by omega)).toPOp.visible = true →
+      modelVisible (runPairs (ctl 0x14 0x29 ++ (ops.take k).flatMap BOp.enc)) 0 =
+        some ((specPairs (ctl 0x14 0x29 ++ (ops.take k).flatMap BOp.enc)).visible 0) := by
+  have hrow : ∀ ch v, init.chans[0]? = some ch → Eia608.init.svc[0]? = some v → ∀ c, v.disp ch.row c = none := by
+    intro ch v _ hv c
+    have : v = Eia608.Service.init false := by
+      have : Eia608.init.svc[0]? = some (Eia608.Service.init false) := rfl
+      rw [this] at hv; cases hv; rfl
+    rw [this]; rfl
+  have S1 := paint_start_bytes init_simIdle hrow
+  refine ⟨by rw [runPairs_eq_feed, specPairs_eq_sfeed]; exact visible_of_simPaint S1, ?_⟩
+  intro k hk0 hk hvis
+  rw [runPairs_eq_feed, specPairs_eq_sfeed, feed_append, sfeed_append]
+  exact bops_paint_refine ops S1 hops k hk0 hk hvis
+
+
+set_option maxRecDepth 100000 in
+/-- a well-formed paint-on script on the fresh decoder: `RDC PAC(row 15) "A "` -/
+example : bopsOkPaint (sfeed Eia608.init (ctl 0x14 0x29)) false [.pac 4 0x70, .pair 0x41 0x20] :=
+  ⟨⟨trivial, _, rfl, by decide, by decide, by decide, 14, 0, none, false, rfl, fun _ => rfl⟩,
+   ⟨⟨by decide, by decide, Or.inr (by decide)⟩, _, rfl, rfl, by decide, by decide, by decide⟩, trivial⟩
 
 end Zvbi.Props.C08
